@@ -1852,6 +1852,14 @@ class DFA(fa.FA):
         Self
             The DFA accepting the desired language.
         """
+        if not substring:
+            # Every string contains (and ends with) the empty string
+            return (
+                cls.universal_language(input_symbols)
+                if contains
+                else cls.empty_language(input_symbols)
+            )
+
         transitions: Dict[DFAStateT, Dict[str, DFAStateT]] = {
             i: {} for i in range(len(substring))
         }
